@@ -1626,6 +1626,13 @@ EnsureSizeAux(uint32 size, bool setNumItems, uint32 extraPreallocs, ItemType ** 
 {
    if (retOldArray) *retOldArray = NULL;  // default value, will be set non-NULL iff the old array needs deleting later
 
+   if ((allowShrink)&&(size < _itemCount))
+   {
+      // The reallocation-code below assumes that all of our current items will fit into the new array
+      if (setNumItems) (void) RemoveTailMulti(_itemCount-size);  // the caller wants us to have fewer items anyway, so get rid of the extras now
+                  else size = _itemCount;                         // we can't shrink our array to hold fewer items than we contain
+   }
+
    if ((_queue == NULL)||(allowShrink ? (_queueSize != (size+extraPreallocs)) : (_queueSize < size)))
    {
       const uint32 sqLen = ARRAYITEMS(_smallQueue);
